@@ -15,6 +15,7 @@
 #include <string.h>
 #include <stdint.h>
 #include <unistd.h>
+#include "watchdog.h"
 static int hexv(int c) { return c <= '9' ? c - '0' : (c | 32) - 'a' + 10; }
 static uint64_t rng_s;
 static uint32_t rnd(void) { rng_s = rng_s * 6364136223846793005ULL + 1442695040888963407ULL; return (uint32_t)(rng_s >> 33); }
